@@ -60,10 +60,14 @@ TEXTS["C16"] = {
             "outputs are those the map of acknowledged writes allows, the persister equals that map, whatever the cache may return is what the persister holds, "
             "a rejected Put returns the error / leaves the persister unchanged / the cache holds nothing for the key / the previous acknowledged value is still served, "
             "Remove clears both layers when accepted, bulk returns a subsequence of the found pairs (all of them when no read fails); factory guard as a decision rule. "
+            "Life-cycle operations interleaved anywhere in the history (RangeKeys, DestroyUnit, Close, with failing persister Close/Destroy): RangeKeys hands the handler exactly the map of acknowledged writes "
+            "whatever the cache holds; DestroyUnit and Close clear the cache before asking the persister, hence also when it fails, and return its error; an acknowledged DestroyUnit leaves cache and persister empty "
+            "(Get/Has of every key: not found) for every cacher whose Clear forgets everything (proved for the LRU cachers; refuted by witness for the FIFO cache holding the empty key). "
             "Tied to the code by differential runs on policy-independent observables over every factory cacher and memorydb/LevelDB persisters behind a failing stub, "
             "and by monitors reading the injected cacher and persister directly.",
     "note": "Trusted: Coq kernel; hand-written model tied by differential runs; extraction; Go harness/monitors/stub. No axioms. Guards: a Get/Has/bulk read that is "
-            "made to fail returns / swallows the error (unguarded readings refuted by witnesses); slice aliasing is outside the model.",
+            "made to fail returns / swallows the error (unguarded readings refuted by witnesses); slice aliasing is outside the model; what a persister answers after a successful Close is not modelled; "
+            "Get's non-[]byte branch and GetOldestEpoch are not modelled.",
     "technique": "Coq proof generic in an abstract lawful cacher (coherence invariant by induction over op lists) + differential correspondence on policy-independent observables + Go monitors + factory-guard grid",
 }
 
@@ -101,8 +105,8 @@ STD_NOTE = "Trusted: Coq kernel, hand-written models (tied to /repo by different
 TEXTS["C15"] = {"text": "Machine-checked proof (Coq) that the transcribed models of capacityLRU and of the hashicorp LRU behind simpleLRUCacheAdapter, wrapped by lruCache, refine a short reference LRU over every history of Put/HasOrAdd/Get/Peek/Has/Remove/Clear/(Un)RegisterHandler, every capacity >= 1, byte capacity >= 1 and every size (negative rejected): all return values, Keys order (LRU->MRU), Len, Peek, Has; invariants (unique keys, Len <= capacity, byte counter = sum of resident sizes, bytes <= capacity or single resident, eviction loop terminates); Put flag true iff a resident left; HasOrAdd flags; only least recently used entries leave and the written entry stays most recent; handler set = what the history registered and exactly one invocation per registered handler per insertion. Models tied to the Go code by differential runs (exhaustive small scope + random) on all observables incl. the multiset of handler invocations; monitors compare the implementation with a Go reference LRU written from the property text.",
   "note": STD_NOTE + " SizeInBytesContained claimed for the sized variant only. int64 sums assumed < 2^63.",
   "technique": "Coq refinement proof over executable Gallina models + differential correspondence check + reference-LRU monitors"}
-TEXTS["C17"] = {"text": "Machine-checked proof (Coq) over the transcribed storageCacherAdapter + capacityLRU + map persister that, for every history of Put/Get/Has/Peek with each key bound to one immutable non-empty value and sizes >= 0 (beyond the byte capacity and size-changing re-puts included) and every capacity/byte capacity >= 1: every key put so far is reported by Has and returned by Get with its value; an entry that leaves the memory tier in a step is in the persister with its value after that step; Put returns true iff an entry left the memory tier (and was persisted). Tied to the Go code (real capacityLRU + memorydb) by differential runs on return values, memory tier and persister contents; monitors check the three clauses directly on the implementation.",
-  "note": STD_NOTE + " Empty serialisations are skipped by design (domain restriction); Remove/Clear/Close outside the property.",
+TEXTS["C17"] = {"text": "Machine-checked proof (Coq) over the transcribed storageCacherAdapter + capacityLRU + map persister that, for every history of Put/HasOrAdd/Get/Has/Peek/SizeInBytesContained/MaxSize with each key bound to one immutable non-empty value and sizes >= 0 (beyond the byte capacity and size-changing re-puts included) and every capacity/byte capacity >= 1: every key put so far - through Put or HasOrAdd - is reported by Has and returned by Get with its value; an entry that leaves the memory tier in a step is in the persister with its value after that step; Put returns true iff an entry left the memory tier (and was persisted); HasOrAdd reports has iff the key was in one of the tiers, then changes nothing, otherwise leaves the entry in the memory tier and returns Put's flag as 'added' (the literal reading 'added = inserted' is refuted by witness). Close is stated exactly: it sets dbIsClosed and resets the spill counter; from then on, in ANY history, the persister is never written again; Has/Get/Keys answer from the memory tier alone, so a key spilled before the Close is no longer found although the persister holds it, and an entry evicted after the Close is dropped ('no loss after Close' refuted by witness). Tied to the Go code (real capacityLRU + memorydb) by differential runs on return values, memory tier and persister contents; monitors check the clauses directly on the implementation.",
+  "note": STD_NOTE + " Empty serialisations are skipped by design (domain restriction); the no-loss clause is for an open persister (no Close in the history); Remove/Clear outside the property.",
   "technique": "Coq invariant proof over executable Gallina models + differential correspondence check + monitors"}
 TEXTS["C12"] = {"text": "Machine-checked proof (Coq) over the operational model transcribed from immunitycache/chunk.go, cache.go, config.go (chunks routed by bit-exact FNV-1 mod NumChunks; itemsAsList, immuneKeys, separate numBytes counter, eviction loop with fuel proved sufficient): for every history of HasOrAdd/Put/AddTx, Remove, ImmunizeKeys, Clear, every configuration Verify accepts and sizes >= 0, the key invariant (flag <=> key in immuneKeys, NoDup, accounting, per-chunk bound, routing) holds; an add removes only non-immune items; never changes the payload of a present key; is refused with the state unchanged when the target chunk is full of immune items; a key accepted by ImmunizeKeys keeps its item (present at that time or added later) retrievable with the original payload until Remove/Clear. Tied to the code by differential runs (exhaustive small scope + random, both ImmunityCache and CrossTxCache) and independent monitors of the property text; corpus histories reproduce F7 on the pre-fix code.",
   "note": STD_NOTE,
@@ -203,6 +207,6 @@ TEXTS["C14"] = {
                "on concurrent runs + Coq-decided acyclicity of a lock-order graph extracted from the source on every run + mutant sensitivity",
 }
 
-TEXTS["C16"]["text"] += (" The cacher laws are proved (Props/C16b.v, 34 theorems) for the models of every cacher the factory builds - sized LRU, plain LRU, the lruCache wrapper, FIFO sharded - "
+TEXTS["C16"]["text"] += (" The cacher laws are proved (Props/C16b.v, 42 theorems) for the models of every cacher the factory builds - sized LRU, plain LRU, the lruCache wrapper, FIFO sharded - "
                          "so all C16 theorems hold for the unit over each of them, for all capacities/parameters, histories and failure oracles; the cache inside the unit is shown to be a "
                          "reachable state of the C15/C20 models, so their invariants hold for it.")
